@@ -387,6 +387,11 @@ func grpcWriteEndToTrailers(respEnd *responseEnd, trailers http.Header) {
 			// trailers-only response the metadata is written to the header
 			// block, where these would frame a body that is not there.
 			continue
+		case "Grpc-Status", "Grpc-Message", "Grpc-Status-Details-Bin":
+			// The status is written below, from the end itself. Metadata
+			// that uses these names (in any spelling: a Connect backend may
+			// send "grpc-status") must not become a second status.
+			continue
 		}
 		trailers[key] = vals
 	}
